@@ -775,6 +775,178 @@ Proof.
   rewrite <- S2 in S1. now destruct (wire_name_inj _ _ _ _ V V' S1).
 Qed.
 
+(* ---- canonical wire octets give values that meet [values_ok] ---- *)
+Lemma svcb_view_alpn_ok key data b l : svcb_view key data = Some (b, l) -> alpn_len_ok (key, b, l).
+Proof.
+  unfold alpn_len_ok, pkey, svcb_view. cbn [fst snd]. intros H E. subst key. cbn [N.eqb Pos.eqb] in H.
+  destruct (alpn_scan (S (length data)) data) as [[|]|]; try discriminate. injection H as <- <-. reflexivity.
+Qed.
+
+Lemma unpack_svcb_go_alpn_ok fuel : forall msg off last acc l off',
+  Forall alpn_len_ok acc -> unpack_svcb_go fuel msg off last acc = Ok (l, off') -> Forall alpn_len_ok l.
+Proof.
+  induction fuel as [|f IH]; intros msg off last acc l off' Ha H; [discriminate|].
+  cbn [unpack_svcb_go] in H. destruct (off <? lenN msg).
+  2:{ apply Ok_pair_inj in H. destruct H as [<- _]. exact Ha. }
+  destruct (lenN msg <? off + 2); [discriminate|]. destruct (lenN msg <? off + 2 + 2); [discriminate|].
+  destruct (lenN msg <? _); [discriminate|].
+  destruct (svcb_view _ _) as [[b lb]|] eqn:Ev; [|discriminate]. destruct (_ <=? last)%Z; [discriminate|].
+  eapply IH; [|exact H]. apply Forall_app. split; [exact Ha|]. constructor; [|constructor].
+  eapply svcb_view_alpn_ok; exact Ev.
+Qed.
+
+Lemma fkind_apl_svcb k : (k = K_apl \/ k = K_svcb) \/ (k <> K_apl /\ k <> K_svcb).
+Proof. destruct k; try (right; split; discriminate); left; auto. Qed.
+
+Lemma value_ok_trivial k x : k <> K_apl -> k <> K_svcb -> value_ok k x.
+Proof. intros A B. destruct k; try exact I; congruence. Qed.
+
+Lemma unpack_field_value_ok got k k' msg off vals off' :
+  kind_agree k k' = true -> unpack_field got k' msg off = Ok (vals, off') ->
+  plain2 got k msg off off' vals -> Forall (value_ok k) vals.
+Proof.
+  intros Ha H Hp.
+  destruct (fkind_apl_svcb k) as [[->| ->]|[N1 N2]].
+  - exact Hp.
+  - destruct k'; try discriminate Ha. cbn [unpack_field] in H. cbv zeta in H.
+    destruct (unpack_svcb msg off) as [[l o]| | |] eqn:E; try discriminate H. cbn [bind fst snd] in H.
+    apply Ok_pair_inj in H. destruct H as [<- _]. constructor; [|constructor]. cbn [value_ok].
+    unfold unpack_svcb in E. eapply unpack_svcb_go_alpn_ok; [|exact E]. constructor.
+  - apply Forall_forall. intros x _. now apply value_ok_trivial.
+Qed.
+
+Lemma unpack_fields_ext us : forall got msg off gotF off',
+  unpack_fields us got msg off = Ok (gotF, off') -> exists ext, gotF = got ++ ext.
+Proof.
+  induction us as [|u us IH]; intros got msg off gotF off' H.
+  - cbn in H. apply Ok_pair_inj in H. destruct H as [<- _]. exists []. now rewrite app_nil_r.
+  - cbn [unpack_fields] in H. destruct (unpack_field got (uf_kind u) msg off) as [[vals o]| | |]; try discriminate H.
+    cbn [bind fst snd] in H. destruct (uf_exit u && (o =? lenN msg)).
+    + apply Ok_pair_inj in H. destruct H as [<- _]. eexists. reflexivity.
+    + destruct (IH _ _ _ _ _ H) as [ext ->]. eexists. rewrite <- app_assoc. reflexivity.
+Qed.
+
+Lemma plain_values_ok ps : forall us seen got msg off gotF off',
+  sides_agree ps us = true -> layout_ok seen ps = true -> keys_are seen got ->
+  unpack_fields us got msg off = Ok (gotF, off') -> plain_fields2 ps us got msg off ->
+  values_ok gotF ps.
+Proof.
+  unfold values_ok.
+  induction ps as [|[f k] ps IH]; intros us seen got msg off gotF off' Hs Hl Hkeys Hun Hplain; [constructor|].
+  destruct us as [|u us]; [discriminate|]. cbn [sides_agree] in Hs.
+  apply andb_prop in Hs. destruct Hs as [Hs Hs']. apply andb_prop in Hs. destruct Hs as [Hname Hk].
+  apply String.eqb_eq in Hname.
+  cbn [layout_ok] in Hl. apply andb_prop in Hl. destruct Hl as [Hl Hl'].
+  apply andb_prop in Hl. destruct Hl as [Hl Hlast]. apply andb_prop in Hl. destruct Hl as [Hl Hsz].
+  apply andb_prop in Hl. destruct Hl as [Hfresh Hdist].
+  set (names := knames f k) in *.
+  assert (Hnf : forall g, In g names -> ~ In g seen).
+  { intros g Hg. rewrite forallb_forall in Hfresh. specialize (Hfresh g Hg).
+    apply existsb_eqb_notin. now destruct (existsb _ seen). }
+  assert (Hnd : NoDup names) by (apply names_distinct_nodup, Hdist).
+  cbn [unpack_fields] in Hun. cbn [plain_fields2] in Hplain.
+  destruct (unpack_field got (uf_kind u) msg off) as [[vals o]| | |] eqn:Eu; try contradiction.
+  destruct Hplain as [Hpl Hplain]. cbn [bind fst snd] in Hun.
+  rewrite (assigned_knames u f k Hk Hname) in Hun, Hplain. fold names in Hun, Hplain.
+  pose proof (unpack_field_arity got k (uf_kind u) msg off vals o f Hk Eu) as Har. fold names in Har.
+  pose proof (unpack_field_value_ok got k (uf_kind u) msg off vals o Hk Eu Hpl) as Hvo.
+  set (got' := got ++ combine names vals) in *.
+  assert (Hsub : forall g, In g names -> vget got g = None).
+  { intros g Hg. destruct (vget got g) eqn:Eg; [|reflexivity]. exfalso. apply (Hnf g Hg), Hkeys. congruence. }
+  assert (Hhead : forall ext x, vget (got' ++ ext) f = Some x -> value_ok k x).
+  { intros ext x Hx. destruct (fkind_apl_svcb k) as [Hk2|[N1 N2]]; [|now apply value_ok_trivial].
+    assert (En : names = [f]) by (unfold names; destruct Hk2 as [-> | ->]; reflexivity).
+    rewrite En in *. destruct vals as [|x0 [|? ?]]; try discriminate Har.
+    assert (E : vget (got' ++ ext) f = Some x0).
+    { unfold got'. rewrite En. cbn [combine]. rewrite !vget_app, (Hsub f (or_introl eq_refl)). cbn. now rewrite String.eqb_refl. }
+    rewrite E in Hx. injection Hx as <-. exact (Forall_inv Hvo). }
+  destruct (uf_exit u && (o =? lenN msg)) eqn:Hex.
+  - apply Ok_pair_inj in Hun. destruct Hun as [<- _].
+    constructor; [cbn [fst snd]; intros x Hx; apply (Hhead [] x); now rewrite app_nil_r|].
+    (* the remaining fields are absent *)
+    apply Forall_forall. intros [f' k'] Hin x Hx. cbn [fst snd] in *.
+    destruct (fkind_apl_svcb k') as [Hk2|[N1 N2]]; [|now apply value_ok_trivial].
+    exfalso.
+    assert (Hk' : keys_are (names ++ seen) got').
+    { intro g. unfold got'. rewrite vget_app, in_app_iff. split.
+      - intros [Hg|Hg].
+        + rewrite (Hsub g Hg). exact (forall2_in_some _ _ _ g (vget_combine names vals Hnd Har) Hg).
+        + apply Hkeys in Hg. destruct (vget got g); congruence.
+      - destruct (vget got g) eqn:Eg; [intros _; right; apply Hkeys; congruence|].
+        intro Hc. left. apply vget_some_in, combine_keys in Hc. exact Hc. }
+    apply (layout_ok_fresh _ _ f' k' f' Hl' Hin); [destruct Hk2 as [-> | ->]; now left|]. apply Hk'. congruence.
+  - destruct (unpack_fields_ext _ _ _ _ _ _ Hun) as [ext ->].
+    constructor; [cbn [fst snd]; intros x Hx; exact (Hhead ext x Hx)|].
+    apply (IH us (names ++ seen) got' msg o (got' ++ ext) off' Hs' Hl'); [|exact Hun|exact Hplain].
+    intro g. unfold got'. rewrite vget_app, in_app_iff. split.
+    + intros [Hg|Hg].
+      * rewrite (Hsub g Hg). exact (forall2_in_some _ _ _ g (vget_combine names vals Hnd Har) Hg).
+      * apply Hkeys in Hg. destruct (vget got g); congruence.
+    + destruct (vget got g) eqn:Eg; [intros _; right; apply Hkeys; congruence|].
+      intro Hc. left. apply vget_some_in, combine_keys in Hc. exact Hc.
+Qed.
+
+(* UnpackRR with a non-empty RDATA: the owner name, ten octets, then unpack() of
+   the record type on the message cut at the end of the RDATA *)
+Lemma unpack_rr_fields msg off r off' L :
+  unpack_rr msg off = Ok (r, off') -> find_layout layouts (rr_kind r) = Some L -> rr_rdlength r <> 0 ->
+  exists nm o1, unpack_name msg off = Ok (nm, o1) /\
+    unpack_fields (tl_unpack L) [] (takeN off' msg) (o1 + 10) = Ok (rr_data r, off').
+Proof.
+  intros H Hfind Hrdl.
+  unfold unpack_rr in H. inv_bind H. destruct a as [[hd off1] tmsg].
+  unfold unpack_rr_header in Ha.
+  destruct (off =? lenN msg) eqn:E0.
+  { apply Ok_pair_inj in Ha. destruct Ha as [Ha <-].
+    assert (Ea1 : hd = fst (hd, off1)) by reflexivity. rewrite <- Ha in Ea1. cbn [fst] in Ea1. subst hd.
+    unfold unpack_rr_with_header in H. cbn [h_rdlength h_type h_name h_class h_ttl] in H.
+    destruct (lenN msg <? off1); [discriminate|]. destruct (lenN msg <? off1 + 0); [discriminate|].
+    cbn [N.eqb] in H. apply Ok_pair_inj in H. destruct H as [<- _]. cbn in Hrdl. congruence. }
+  destruct (unpack_name msg off) as [[nm o1]| | |] eqn:En; try discriminate. cbn [bind fst snd] in Ha.
+  destruct (unpack_fixed 2 msg o1) as [[T o2]| | |] eqn:E1; try discriminate. cbn [bind fst snd] in Ha.
+  destruct (unpack_fixed 2 msg o2) as [[C o3]| | |] eqn:E2; try discriminate. cbn [bind fst snd] in Ha.
+  destruct (unpack_fixed 4 msg o3) as [[TT o4]| | |] eqn:E3; try discriminate. cbn [bind fst snd] in Ha.
+  destruct (unpack_fixed 2 msg o4) as [[RL o5]| | |] eqn:E4; try discriminate. cbn [bind fst snd] in Ha.
+  destruct (lenN msg <? o5 + be RL 0) eqn:E5; [discriminate|].
+  apply Ok_pair_inj in Ha. destruct Ha as [Ha <-].
+  assert (Ea1 : hd = fst (hd, off1)) by reflexivity. assert (Ea2 : off1 = snd (hd, off1)) by reflexivity.
+  rewrite <- Ha in Ea1, Ea2. cbn [fst snd] in Ea1, Ea2. subst hd off1. clear Ha.
+  apply unpack_fixed_inv in E1, E2, E3, E4.
+  destruct E1 as [R1 [-> ->]]. destruct E2 as [R2 [-> ->]]. destruct E3 as [R3 [-> ->]]. destruct E4 as [R4 [-> ->]].
+  set (rdl := be (take_at msg (o1 + 2 + 2 + 4) 2) 0) in *. set (o5 := o1 + 2 + 2 + 4 + 2) in *.
+  unfold unpack_rr_with_header in H. cbn [h_type h_name h_class h_ttl h_rdlength] in H.
+  set (tmsg := takeN (o5 + rdl) msg) in *.
+  destruct (lenN tmsg <? o5); [discriminate|]. destruct (lenN tmsg <? o5 + rdl); [discriminate|].
+  destruct (rdl =? 0) eqn:Er0.
+  { apply Ok_pair_inj in H. destruct H as [<- _]. cbn [rr_rdlength] in Hrdl. lia. }
+  destruct (find_layout layouts (kind_of_type (be (take_at msg o1 2) 0))) as [L'|] eqn:EL; [|discriminate].
+  inv_bind H. destruct a as [gotF e]. cbn [fst snd] in H.
+  destruct (e =? o5 + rdl) eqn:Ee; [|discriminate]. apply Ok_pair_inj in H. destruct H as [<- <-].
+  cbn [rr_kind rr_data] in *. rewrite EL in Hfind. apply Some_inj in Hfind. subst L'.
+  exists nm, o1. split; [reflexivity|].
+  assert (e = o5 + rdl) by lia. subst e. replace (o1 + 10) with o5 by (unfold o5; lia). exact Ha.
+Qed.
+
+Lemma wire_values_ok msg off r off' L ls :
+  unpack_rr msg off = Ok (r, off') -> find_layout layouts (rr_kind r) = Some L -> rr_rdlength r <> 0 ->
+  valid_wire ls = true -> off + lenN (wire_name ls) <= lenN msg ->
+  take_at msg off (lenN (wire_name ls)) = wire_name ls ->
+  plain_fields2 (tl_pack L) (tl_unpack L) [] (takeN off' msg) (off + lenN (wire_name ls) + 10) ->
+  values_ok (rr_data r) (tl_pack L).
+Proof.
+  intros Hu Hfind Hrdl Hls Hwl Ewire Hplain.
+  destruct (unpack_rr_fields msg off r off' L Hu Hfind Hrdl) as [nm [o1 [Hn Hf]]].
+  assert (Hun : unpack_name msg off = Ok (show_name ls, off + lenN (wire_name ls))).
+  { assert (Emsg : msg = takeN off msg ++ wire_name ls ++ dropN (off + lenN (wire_name ls)) msg).
+    { rewrite <- Ewire at 1. rewrite app_assoc, <- takeN_split by lia. symmetry. apply firstn_skipn. }
+    set (pre := takeN off msg) in *. set (post := dropN (off + lenN (wire_name ls)) msg) in *.
+    assert (Eoff : lenN pre = off) by (apply lenN_takeN'; lia).
+    rewrite Emsg, <- Eoff. apply unpack_name_exact, Hls. }
+  rewrite Hun in Hn. apply Ok_pair_inj in Hn. destruct Hn as [_ <-].
+  eapply (plain_values_ok (tl_pack L) (tl_unpack L) [] []); [eapply sides_agree_of; eauto|eapply layout_ok_of; eauto| |exact Hf|exact Hplain].
+  intro g. cbn. split; [intros []|congruence].
+Qed.
+
 (* one record from the wire, under the conditions of C01's record_converse: its
    octets are owner, TYPE, CLASS, TTL, RDLENGTH, rd, where rd is what pack()
    writes for the decoded RDATA anywhere (no compression), and the decoded RDATA
@@ -786,7 +958,7 @@ Lemma wire_record_octets msg off r off' L ls cap :
   valid_wire ls = true -> off + lenN (wire_name ls) <= lenN msg ->
   take_at msg off (lenN (wire_name ls)) = wire_name ls ->
   plain_fields2 (tl_pack L) (tl_unpack L) [] (takeN off' msg) (off + lenN (wire_name ls) + 10) ->
-  present (tl_pack L) (rr_data r) -> values_ok (rr_data r) (tl_pack L) ->
+  present (tl_pack L) (rr_data r) ->
   65855 <= cap ->
   rr_ok r ls /\ fields_canon (rr_data r) (tl_pack L) /\ sep_ok (tl_pack L) = true /\
   exists rd ln,
@@ -795,7 +967,8 @@ Lemma wire_record_octets msg off r off' L ls cap :
     lenN ln = lenN rd /\
     pack_fields (lower_names (tl_pack L) (rr_data r)) (tl_pack L) cap (st0 []) = Ok (st0 ln).
 Proof.
-  intros Hw Hu Hfind Hopt Hrdl Hls Hwl Ewire Hplain Hpres Hvals Hcap.
+  intros Hw Hu Hfind Hopt Hrdl Hls Hwl Ewire Hplain Hpres Hcap.
+  pose proof (wire_values_ok msg off r off' L ls Hu Hfind Hrdl Hls Hwl Ewire Hplain) as Hvals.
   destruct (unpack_rr_canon msg off r off' L Hw Hu Hfind Hrdl Hpres Hvals) as [ls' [Hok Hcanon]].
   pose proof (wire_name_len_pos ls) as Hpos.
   assert (Hlo : lenN (takeN off msg) = off) by (apply lenN_takeN'; lia).
@@ -826,30 +999,32 @@ Theorem wire_duplicate_iff_octets m1 o1 r1 o1' L1 ls1 m2 o2 r2 o2' L2 ls2 cap :
   valid_wire ls1 = true -> o1 + lenN (wire_name ls1) <= lenN m1 ->
   take_at m1 o1 (lenN (wire_name ls1)) = wire_name ls1 ->
   plain_fields2 (tl_pack L1) (tl_unpack L1) [] (takeN o1' m1) (o1 + lenN (wire_name ls1) + 10) ->
-  present (tl_pack L1) (rr_data r1) -> values_ok (rr_data r1) (tl_pack L1) ->
+  present (tl_pack L1) (rr_data r1) ->
   wfb m2 -> unpack_rr m2 o2 = Ok (r2, o2') ->
   find_layout layouts (rr_kind r2) = Some L2 -> rr_kind r2 <> "OPT"%string -> rr_rdlength r2 <> 0 ->
   valid_wire ls2 = true -> o2 + lenN (wire_name ls2) <= lenN m2 ->
   take_at m2 o2 (lenN (wire_name ls2)) = wire_name ls2 ->
   plain_fields2 (tl_pack L2) (tl_unpack L2) [] (takeN o2' m2) (o2 + lenN (wire_name ls2) + 10) ->
-  present (tl_pack L2) (rr_data r2) -> values_ok (rr_data r2) (tl_pack L2) ->
+  present (tl_pack L2) (rr_data r2) ->
   65855 <= cap ->
   exists rd1 ln1 rd2 ln2,
     (take_at m1 o1 (o1' - o1) = rr_wire ls1 r1 rd1 /\
      pack_fields (rr_data r1) (tl_pack L1) cap (st0 []) = Ok (st0 rd1) /\
-     pack_fields (lower_names (tl_pack L1) (rr_data r1)) (tl_pack L1) cap (st0 []) = Ok (st0 ln1)) /\
+     pack_fields (lower_names (tl_pack L1) (rr_data r1)) (tl_pack L1) cap (st0 []) = Ok (st0 ln1) /\
+     lenN ln1 = lenN rd1) /\
     (take_at m2 o2 (o2' - o2) = rr_wire ls2 r2 rd2 /\
      pack_fields (rr_data r2) (tl_pack L2) cap (st0 []) = Ok (st0 rd2) /\
-     pack_fields (lower_names (tl_pack L2) (rr_data r2)) (tl_pack L2) cap (st0 []) = Ok (st0 ln2)) /\
+     pack_fields (lower_names (tl_pack L2) (rr_data r2)) (tl_pack L2) cap (st0 []) = Ok (st0 ln2) /\
+     lenN ln2 = lenN rd2) /\
     (is_duplicate r1 r2 = Ok true <->
      rr_type r1 = rr_type r2 /\ rr_class r1 = rr_class r2 /\
      lower_bytes (wire_name ls1) = lower_bytes (wire_name ls2) /\ ln1 = ln2).
 Proof.
-  intros W1 U1 F1 O1 R1 V1 B1 T1 PL1 PR1 VO1 W2 U2 F2 O2 R2 V2 B2 T2 PL2 PR2 VO2 Hcap.
-  destruct (wire_record_octets m1 o1 r1 o1' L1 ls1 cap W1 U1 F1 O1 R1 V1 B1 T1 PL1 PR1 VO1 Hcap)
-    as [K1 [C1 [S1 [rd1 [ln1 [X1 [Y1 [_ Z1]]]]]]]].
-  destruct (wire_record_octets m2 o2 r2 o2' L2 ls2 cap W2 U2 F2 O2 R2 V2 B2 T2 PL2 PR2 VO2 Hcap)
-    as [K2 [C2 [S2 [rd2 [ln2 [X2 [Y2 [_ Z2]]]]]]]].
+  intros W1 U1 F1 O1 R1 V1 B1 T1 PL1 PR1 W2 U2 F2 O2 R2 V2 B2 T2 PL2 PR2 Hcap.
+  destruct (wire_record_octets m1 o1 r1 o1' L1 ls1 cap W1 U1 F1 O1 R1 V1 B1 T1 PL1 PR1 Hcap)
+    as [K1 [C1 [S1 [rd1 [ln1 [X1 [Y1 [Q1 Z1]]]]]]]].
+  destruct (wire_record_octets m2 o2 r2 o2' L2 ls2 cap W2 U2 F2 O2 R2 V2 B2 T2 PL2 PR2 Hcap)
+    as [K2 [C2 [S2 [rd2 [ln2 [X2 [Y2 [Q2 Z2]]]]]]]].
   exists rd1, ln1, rd2, ln2. split; [auto|]. split; [auto|].
   destruct K1 as [N1 [_ [_ [_ [_ Kd1]]]]]. destruct K2 as [N2 [_ [_ [_ [_ Kd2]]]]].
   assert (Hname : lower_bytes (rr_name r1) = lower_bytes (rr_name r2) <->
@@ -938,7 +1113,7 @@ Definition wire_hyps (w : bytes) (o : N) (r : rr) (o' : N) (L : tlayout) (ls : l
   valid_wire ls = true /\ o + lenN (wire_name ls) <= lenN w /\
   take_at w o (lenN (wire_name ls)) = wire_name ls /\
   plain_fields2 (tl_pack L) (tl_unpack L) [] (takeN o' w) (o + lenN (wire_name ls) + 10) /\
-  present (tl_pack L) (rr_data r) /\ values_ok (rr_data r) (tl_pack L).
+  present (tl_pack L) (rr_data r).
 
 (* a. 300 IN MX 10 b.  /  A. 60 IN MX 10 B.  /  a. 60 IN MX 11 b. *)
 Definition mxw_1 : bytes := [1;97;0; 0;15; 0;1; 0;0;1;44; 0;5; 0;10; 1;98;0].
@@ -951,8 +1126,7 @@ Ltac mx_hyps l :=
   split; [vm_compute; reflexivity|]; split; [vm_compute; reflexivity|];
   split; [vm_compute; discriminate|]; split; [vm_compute; discriminate|];
   split; [vm_compute; reflexivity|]; split; [vm_compute; discriminate|]; split; [vm_compute; reflexivity|];
-  split; [ex_plain; exists l; split; reflexivity|];
-  split; [solve [ex_plain]|solve [ex_plain]].
+  split; [ex_plain; exists l; split; reflexivity|solve [ex_plain]].
 
 Lemma mx_wire_hyps :
   exists r1 r2 r3 L,
